@@ -1570,7 +1570,8 @@ def c14(tier, sc):
     pool = [w for w in pool if w.upper() not in comp]
     nums = ["0", "7", "42", "2024"]
     un = [w + " " for w in pool] + [n + " " for n in nums]
-    longw = ["a" * 30, "b" * 31, "c" * 32, "d" * 33, "q" * 31 + "1"]
+    longw = ["a" * 30, "b" * 31, "c" * 32, "d" * 33, "q" * 31 + "1", "7" * 31, "1" * 32, "9" * 33, "0" * 40 + "4711",
+             "hello " + "1" * 32 + " Bob_1", "x9 " + "12345678901234567890123456789012", "a" * 64, "_" * 32]
     shapes = []
     for a, b2, c in (("bob", "mail", "org"), ("x9", "zz", "qq"), ("hello", "Bob_1", "x9")):
         if all(w.upper() not in comp for w in (a, b2, c)):
@@ -1580,7 +1581,7 @@ def c14(tier, sc):
     cases = sqli_props(sc, d, rep, "c14", "c14", un, 5 if big else 4, templates=tmpl)
     inputs = [c["in"] for c in cases]
     # sampled beyond the bound: long runs, 31/32/33-byte words
-    allw = [w for w in words if len(w) >= 2] + longw + nums
+    allw = [w for w in words if len(w) >= 2] + [w for w in longw if " " not in w] + nums + ["3" * 32, "5" * 45]
     for _ in range(30000 if big else 3000):
         k = r.randint(5, 40)
         inputs.append(vgen.b(" ".join(r.choice(allw) for _ in range(k))))
